@@ -107,24 +107,14 @@ func c03r1(c *core.Ctx) {
 				c.Violation("C03/R1a", subject, c.At(mc.Pos()), fmt.Sprintf("%s applies the filter to %s, not to an archetype's mask", f.Name, m.ExprString(mc.Args[0])))
 				continue
 			}
-			// the match must gate the selection: `if !matches { continue }`
-			gated := false
-			core.InspectNoLits(f.Body, func(n ast.Node) bool {
-				if is, ok := n.(*ast.IfStmt); ok {
-					for _, a := range core.Assume(is.Cond, false) {
-						if ast.Unparen(a.Expr) == ast.Node(mc) && a.Truth && len(is.Body.List) == 1 {
-							if br, ok := is.Body.List[0].(*ast.BranchStmt); ok && br.Tok == token.CONTINUE {
-								gated = true
-							}
-						}
-					}
-				}
-				return true
-			})
+			// the match must gate the selection: on the outcome "does not match" nothing may happen until the next
+			// archetype is considered (or the function returns), in whatever form the test is written
+			gated, where := noEffectWhenFalse(c, f, mc)
+			_ = where
 			if gated {
 				c.OK("C03/R1a", subject, c.At(mc.Pos()), "archetype mask tested; non-matching archetypes are skipped")
 			} else {
-				c.Violation("C03/R1a", subject, c.At(mc.Pos()), f.Name+": the filter test does not unconditionally skip non-matching archetypes")
+				c.Violation("C03/R1a", subject, c.At(mc.Pos()), f.Name+": the filter test does not unconditionally skip non-matching archetypes ("+where+" is reached although the archetype's mask does not match)")
 			}
 		}
 		// (b) no-relation branch uses table 0
@@ -264,6 +254,145 @@ func c03r1(c *core.Ctx) {
 	}
 }
 
+// noEffectWhenFalse reports whether, on every path that continues from the evaluation of the boolean call `test` with
+// outcome false, no statement with an effect (assignment, increment, call with stores, dynamic call) is executed before
+// the enclosing loop continues with its next iteration or the function returns. The second result names an offender.
+func noEffectWhenFalse(c *core.Ctx, f *core.Func, test *ast.CallExpr) (bool, string) {
+	m := c.M
+	g := m.CFG(f)
+	loop := enclosingLoopOf(f, test)
+	// three-valued evaluation of a condition with the test fixed to false
+	var ev func(e ast.Expr) int
+	ev = func(e ast.Expr) int {
+		e = ast.Unparen(e)
+		if e == ast.Expr(test) {
+			return 0
+		}
+		switch x := e.(type) {
+		case *ast.UnaryExpr:
+			if x.Op == token.NOT {
+				switch ev(x.X) {
+				case 0:
+					return 1
+				case 1:
+					return 0
+				}
+			}
+		case *ast.BinaryExpr:
+			a, b := ev(x.X), ev(x.Y)
+			switch x.Op {
+			case token.LAND:
+				if a == 0 || b == 0 {
+					return 0
+				}
+				if a == 1 && b == 1 {
+					return 1
+				}
+			case token.LOR:
+				if a == 1 || b == 1 {
+					return 1
+				}
+				if a == 0 && b == 0 {
+					return 0
+				}
+			}
+		}
+		return -1
+	}
+	contains := func(e ast.Expr) bool {
+		found := false
+		ast.Inspect(e, func(n ast.Node) bool {
+			if n == ast.Node(test) {
+				found = true
+			}
+			return !found
+		})
+		return found
+	}
+	var starts []*cfg.Block
+	for _, b := range g.Blocks {
+		if len(b.Succs) != 2 || len(b.Nodes) == 0 {
+			continue
+		}
+		cond, ok := b.Nodes[len(b.Nodes)-1].(ast.Expr)
+		if !ok || !contains(cond) {
+			continue
+		}
+		switch ev(cond) {
+		case 1:
+			starts = append(starts, b.Succs[0])
+		case 0:
+			starts = append(starts, b.Succs[1])
+		default:
+			starts = append(starts, b.Succs[0], b.Succs[1])
+		}
+	}
+	if len(starts) == 0 {
+		return false, "the test is not used as a branch condition"
+	}
+	isStop := func(b *cfg.Block) bool {
+		if loop == nil || b.Stmt != loop {
+			return false
+		}
+		switch b.Kind {
+		case cfg.KindForLoop, cfg.KindForPost, cfg.KindRangeLoop, cfg.KindForDone, cfg.KindRangeDone:
+			return true
+		}
+		return false
+	}
+	effect := func(n ast.Node) string {
+		out := ""
+		core.WalkEval(n, func(x ast.Node, cond bool) {
+			if out != "" {
+				return
+			}
+			switch y := x.(type) {
+			case *ast.AssignStmt:
+				for _, l := range y.Lhs {
+					if id, ok := l.(*ast.Ident); ok && id.Name == "_" {
+						continue
+					}
+					out = "the assignment at " + c.At(y.Pos())
+				}
+			case *ast.IncDecStmt:
+				out = "the update at " + c.At(y.Pos())
+			case *ast.CallExpr:
+				if k, _, _ := m.Callee(y); k == core.CallDynamic {
+					out = "the callback at " + c.At(y.Pos())
+				} else if len(c.Eff.StoresAt(f, y)) > 0 {
+					out = "the call at " + c.At(y.Pos())
+				}
+			}
+		})
+		return out
+	}
+	seen := map[*cfg.Block]bool{}
+	var visit func(b *cfg.Block) string
+	visit = func(b *cfg.Block) string {
+		if seen[b] || isStop(b) {
+			return ""
+		}
+		seen[b] = true
+		for _, n := range b.Nodes {
+			if w := effect(n); w != "" {
+				return w
+			}
+		}
+		for _, s := range b.Succs {
+			if w := visit(s); w != "" {
+				return w
+			}
+		}
+		return ""
+	}
+	for _, st := range starts {
+		if w := visit(st); w != "" {
+			return false, w
+		}
+	}
+	return true, ""
+}
+
 // relationExprs: the expressions that denote "the relations of this selection" inside f.
 func relationExprs(m *core.Model, f *core.Func) map[string]bool {
 	out := map[string]bool{}
@@ -292,9 +421,9 @@ func relationExprs(m *core.Model, f *core.Func) map[string]bool {
 
 type relTableVar struct {
 	name   string
-	v      *types.Var   // the *table variable (or nil)
-	idVar  *types.Var   // the table id variable of a range loop (or nil)
-	def    ast.Node     // definition of v (assignment) or the range statement
+	v      *types.Var // the *table variable (or nil)
+	idVar  *types.Var // the table id variable of a range loop (or nil)
+	def    ast.Node   // definition of v (assignment) or the range statement
 	rng    *ast.RangeStmt
 	source string
 	cached bool
